@@ -772,6 +772,10 @@ pub struct AddStreamPlan {
     /// every stream but the new one(s) leaves early (the documented "add_stream, then unsubscribe
     /// the parent" usage): nothing the other receivers do can cover up for the new stream
     pub lonely: Option<(u8, bool)>,
+    /// on a futures queue the producers are Sink tasks (they park when refused) and the child may
+    /// convert a single-consumer new stream with into_multi before draining it (round-7 seeds
+    /// C10-9, C10-10: park lists mixed up in the futures conversions)
+    pub tasks: (bool, bool),
     pub sched: Schedule,
 }
 
@@ -807,9 +811,10 @@ pub fn addstream_plan() -> BoxedStrategy<AddStreamPlan> {
             // one case in four: a thread is held at one of the first points of its add_stream call
             // while everybody else runs on (after round-6 seed C01-6)
             prop_oneof![2 => schedule(500), 1 => stall_call_schedule(500, &[14])],
+            (any::<bool>(), any::<bool>()),
         ),
     )
-        .prop_map(|(q, prefill, producers, parent_handles, pre_recv, adder_single, sibling_pre, other_stream, hows, second_add, side_adds, (lonely, sched))| AddStreamPlan {
+        .prop_map(|(q, prefill, producers, parent_handles, pre_recv, adder_single, sibling_pre, other_stream, hows, second_add, side_adds, (lonely, sched, tasks))| AddStreamPlan {
             q,
             prefill: prefill.min(q.n() as u8),
             producers,
@@ -822,6 +827,7 @@ pub fn addstream_plan() -> BoxedStrategy<AddStreamPlan> {
             second_add,
             side_adds,
             lonely,
+            tasks,
             sched,
         })
         .boxed()
@@ -864,7 +870,11 @@ pub fn build_addstream(pl: &AddStreamPlan, opts: &ExecOpts) -> Scenario {
     for k in &pl.producers {
         let p = progs.len() as u8;
         main.push(Op::Spawn { prog: p, tx: vec![0], rx: vec![] });
-        progs.push(Prog { ops: (0..*k).map(|_| Op::Send { tx: 0, max: 0 }).collect(), ret: false });
+        let sink = pl.tasks.0 && q.futures;
+        progs.push(Prog {
+            ops: (0..*k).map(|_| if sink { Op::SinkSend { tx: 0 } } else { Op::Send { tx: 0, max: 0 } }).collect(),
+            ret: false,
+        });
     }
     let take = |table: &mut Vec<&str>, what: &str| -> u16 {
         let idx = table.iter().position(|x| *x == what).unwrap();
@@ -916,6 +926,10 @@ pub fn build_addstream(pl: &AddStreamPlan, opts: &ExecOpts) -> Scenario {
         let mut cops = vec![];
         if pl.second_add {
             cops.push(Op::Spawn { prog: child + 1, tx: vec![], rx: vec![sel(1, 2)] });
+        }
+        if pl.tasks.1 && q.futures {
+            // (skipped unless the new stream is a single-consumer receiver)
+            cops.push(Op::IntoMulti { rx: 0 });
         }
         cops.push(Op::Drain { rx: 0, how: pl.hows[2], extra: 0 });
         if pl.second_add {
